@@ -192,11 +192,19 @@ class extract_visitor(NodeVisitor):
         # ast.parse accepts ``break`` outside a loop and in a class body inside one
         if self.loops and self.loops[-1][0] is self.flow.scope:
             self.loops[-1][1].append(self.flow)
+            self.end_flow('after-break')
 
     def visit_Continue(self, node):
         # type: (ast.Continue) -> None
         if self.loops and self.loops[-1][0] is self.flow.scope:
             self.loops[-1][2].append(self.flow)
+            self.end_flow('after-continue')
+
+    def end_flow(self, hint):
+        # type: (str) -> None
+        """The names of a flow are those at its end: what follows goes into a new one."""
+        self.flow = self.make_flow(hint, [self.flow])
+        self.flow.scope.flow = self.flow
 
     def visit_Import(self, node):
         # type: (ast.Import) -> None
